@@ -46,6 +46,10 @@ CLAIMED = {
             "Runtime monitoring: for Bus, Value.Pull, Collection.Pull and PullID (lossy/backpressured, seed/updates-only) a cancel is injected while a sender, subscriber or stopper is parked at each hook point, while a send is blocked on a consumer that stopped receiving, with pre-cancelled contexts and at random instants under stress with 0-8 subscribers and 0-3 writers. At quiescent points: every cancelled channel closed, no writer stalled by a cancelled subscription, every goroutine started by the library gone even if the consumer never reads again, PullID ended by removal of its item, bus events exactly once and in per-sender order for listeners live for the whole send. A dead worker process is a violation of the scenario that ran.",
             "Quiescence is decided from atomic goroutine dumps; the library's 1 s log-only alarm goroutines are ignored; 'live for the whole send' is decided with a logical clock.",
             "DESIGN.md §4 C10"),
+    "C11": ("Go race detector (go build -race) over seeded random concurrent programs on every concurrently-usable type; reports parsed from GORACE logs and de-duplicated by the pair of innermost sc-golang functions",
+            "Runtime monitoring with a sanitizer: 17 workload families (Value, Collection with generated ids / id interceptor / interceptors / all Pull options / cancels, Bus, router with factory and fallback, wrapped client streams within gRPC's concurrency contract, group.Execute*, and the electric (several models at once), parent, metadata, vending, publication, hail, waste, open/close, mode and fan speed models) run as programs of 4-16 goroutines x 260-460 operations, a third with stress yields at hook points, a third with a synchronisation-free yield handler, a third plain; every race report with an sc-golang frame is a violation keyed by the normalised function pair. Evidence counts programs, operations, overlapping operation pairs and method pairs actually exercised.",
+            "The detector only sees accesses that overlap in a run: a silent run is 'none observed'. Callbacks and consumers only read the messages they are given; the harness adds no happens-before edges of its own in two thirds of the programs.",
+            "DESIGN.md §4 C11"),
     "C12": ("recording fakes + map model + forced first-Get windows (hooks) + differential regeneration of the generated routers/wrappers from linked-in descriptors",
             "Runtime monitoring: every method of every generated router found in the tree is driven with random requests and scripted responses (k messages, header, trailer, error at any position) against recording fake clients per name; registry histories against a map model with the exact change log; concurrent first Gets forced window by window; default-name interceptors over all request types; and the real protoc-gen-router / protoc-gen-wrapper are rebuilt and re-run on the linked-in API descriptors and compared declaration by declaration with the checked-in files. A router or service in the tree without a table entry is reported.",
             "Unary response headers/trailers and fallback-vs-factory precedence are observed, not judged; regeneration compares go/printer forms (import grouping is a note).",
@@ -84,7 +88,7 @@ CLAIMED = {
             "DESIGN.md §4 C20"),
 }
 
-NOT_YET = "monitor under construction in this session (runtime-monitoring design in DESIGN.md §4); not claimed until its check is silent on the unchanged tree"
+NOT_YET = "not claimed"
 
 ALL = ["C%02d" % i for i in range(1, 21)]
 
